@@ -62,6 +62,8 @@ pub fn raw_of(t: &Twin, w1: &World, reg: &Reg) -> Op {
 pub fn execute_twin(plan: &Plan, reg: &Reg) -> RunRecord {
     let mut w0 = World::new(reg, plan.custom_chain, &plan.accounts);
     let mut w1 = World::new(reg, plan.custom_chain, &plan.accounts);
+    // proxies against the underlying test chain: the raw world's clock is moved by that chain itself
+    w1.raw_block = plan.codes.iter().any(|c| c.flavour == FLAVOUR_PROXY);
     let mut harness_error = None;
     bb::set_world(0);
     for c in &plan.codes {
@@ -76,9 +78,7 @@ pub fn execute_twin(plan: &Plan, reg: &Reg) -> RunRecord {
             harness_error = Some(format!("world 1 store {}: {}", c.cid, e));
         }
     }
-    if w0.code_ids != w1.code_ids {
-        harness_error = Some(format!("code ids differ between the worlds: {:?} vs {:?}", w0.code_ids, w1.code_ids));
-    }
+    // (differing code ids are the twin monitor's to judge: storing is part of what is compared)
     let mut recs = vec![];
     let all: Vec<(bool, &Op)> = plan.setup.iter().map(|o| (true, o)).chain(plan.ops.iter().map(|o| (false, o))).collect();
     for (i, (setup, op)) in all.into_iter().enumerate() {
@@ -135,6 +135,7 @@ pub fn execute_twin(plan: &Plan, reg: &Reg) -> RunRecord {
         contracts: w0.contracts.clone(),
         contracts1: w1.contracts.clone(),
         code_ids: w1.code_ids.clone(),
+        code_ids0: w0.code_ids.clone(),
         accounts: w1.accounts.clone(),
         ops: recs,
         fired: BTreeMap::new(),
